@@ -282,4 +282,50 @@ theorem substractAndRoundDown_translated (blknum sub fsb : Nat) :
     simp [h, this]
   · simp [h]
 
+/-- **which number a block stream request stands for** (`BlockstreamServer.Blocks`): "the last n blocks" starts at
+    head − n, never below the first streamable block and never below the lowest block the hub can serve — also when n
+    exceeds the head number (no wrap-around) -/
+theorem burst_request_start (burst : Int) (h : 0 ≤ burst) (head headLib lowest fsb : Nat) :
+    burstStart burst head headLib lowest fsb = max lowest (max fsb (head - burst.toNat)) := by
+  unfold burstStart
+  have h1 : (burst == -1) = false := by
+    cases hb : burst == -1
+    · rfl
+    · have := beq_iff_eq.mp hb; omega
+  have h2 : ¬ (burst < -1) := by omega
+  rw [h1]
+  simp only [Bool.false_eq_true, if_false, h2]
+  by_cases hc : (decide (burst.toNat > head) || decide (head - burst.toNat < fsb)) = true
+  · rw [if_pos hc]
+    simp only [Bool.or_eq_true, decide_eq_true_eq] at hc
+    congr 1
+    rw [Nat.max_def]
+    split <;> omega
+  · rw [if_neg hc]
+    simp only [Bool.or_eq_true, decide_eq_true_eq, not_or] at hc
+    congr 1
+    rw [Nat.max_def]
+    split <;> omega
+
+/-- "from block n" (burst −n, n ≥ 2) starts at n unless the hub cannot serve that low; "from the LIB" (burst −1) starts
+    at the LIB number the head block declares -/
+theorem burst_request_from (n : Nat) (hn : 2 ≤ n) (head headLib lowest fsb : Nat) :
+    burstStart (-(n : Int)) head headLib lowest fsb = max lowest n ∧
+    burstStart (-1) head headLib lowest fsb = headLib := by
+  refine ⟨?_, by simp [burstStart]⟩
+  unfold burstStart
+  have h1 : ((-(n : Int)) == -1) = false := by
+    cases hb : (-(n : Int)) == -1
+    · rfl
+    · have := beq_iff_eq.mp hb; omega
+  have h2 : (-(n : Int)) < -1 := by omega
+  rw [h1]
+  simp only [Bool.false_eq_true, if_false, h2, if_true, Int.neg_neg, Int.toNat_natCast]
+
+/-- a block stream request on a hub with a head is answered with the with-forks snapshot from that number -/
+theorem blockstream_burst_is_withForks_snapshot (s : FState) (h : Blk) (hs : s.lastSent = some h) (burst : Int) (fsb : Nat) :
+    blockstreamBurst s burst fsb =
+      blocksFromNumWithForks s (burstStart burst h.num h.lib ((lowestBlockNum s).getD 0) fsb) := by
+  simp [blockstreamBurst, hs]
+
 end BstreamVerif.Props.C09
